@@ -343,6 +343,18 @@ impl PrivateBatchProver {
     }
 }
 
+/// Verification hooks: read-only access to the prover's targets and witness.
+#[cfg(quantus_network_qp_zk_circuits_verif)]
+impl PrivateBatchProver {
+    pub fn verif_targets(&self) -> Option<PrivateBatchCircuitTargets> {
+        self.targets.clone()
+    }
+
+    pub fn verif_partial_witness(&self) -> &PartialWitness<F> {
+        &self.partial_witness
+    }
+}
+
 // -----------------------------------------------------------------------------
 // Helpers
 // -----------------------------------------------------------------------------
